@@ -220,6 +220,10 @@ def cases(tier):
         Case("mps_solver_selection_n2", mps_solver_selection(2), covers=COVERS, bounds={"atoms": 2, "solver": 2, "noise": "on/off x 3 config noise sets", "types": 2, "dim": [2, 3]}, canaries=["dmrg_ignores_noise"], weight=100, deadline_s=1500),
         Case("make_h_rejects", make_h_rejects(), covers=COVERS, bounds={}),
     ]
+    from harness.c22 import rejects as _adapter_rejects
+
+    for k in ("two_bases", "supported_plus_unsupported", "unknown_basis"):
+        out.append(Case(f"adapter_rejects_{k}", _adapter_rejects(k), covers=[("emu_base/pulser_adapter.py", "_extract_omega_delta_phi")], bounds={"channel_bases": k}))
     if tier != "quick":
         out.append(Case("sv_decision_table_n1", sv_decision_table(1), covers=COVERS, bounds={"atoms": 1}, canaries=["xy_is_fine"]))
         out.append(Case("mps_solver_selection_n3", mps_solver_selection(3), covers=COVERS, bounds={"atoms": 3}, canaries=["dmrg_ignores_noise"], weight=300, deadline_s=1800))
